@@ -96,9 +96,17 @@ def make_morph(d):
 
 
 def fbits(x):
-    """IEEE-754 bit pattern of a coordinate (as a signed 64-bit integer): end points and reloaded arrays are compared
-    bit for bit with the arrays given (0.0 / -0.0, denormals, huge values, integer-valued and integer-dtype entries)"""
-    return struct.unpack("<q", struct.pack("<d", float(x)))[0]
+    """injective code of a float64 value, so that end points and reloaded arrays are compared BIT FOR BIT with the
+    arrays given (0.0 / -0.0, denormals, huge values, integer-valued and integer-dtype entries):
+    multiples of 1/16 below 2**40 (except -0.0) -> the even number 2*(16*x); everything else -> the odd number
+    4*(IEEE-754 bit pattern as signed 64-bit) + 3.  (Compact, because Coq parses small numerals much faster.)"""
+    x = float(x)
+    bits = struct.unpack("<q", struct.pack("<d", x))[0]
+    if x == x and abs(x) < 2.0 ** 40 and bits != -(2 ** 63):
+        k = x * 16.0
+        if k == int(k):
+            return 2 * int(k)
+    return 4 * bits + 3
 
 
 def vbits(a):
